@@ -52,11 +52,11 @@ var plans = map[string]plan{
 	},
 	"C06": {
 		Property: "C06", Level: "exploration",
-		Quick:    []phase{{Scen: "C06", Seeds: 12000, Batch: 500}},
-		Thorough: []phase{{Scen: "C06", Seeds: 1500000, Batch: 5000}},
-		Rule:     "seeded histories of 5..40 operations (Refresh, Get hit/miss/negative, List) by one caller, in a third of the runs with a second caller issuing overlapping refreshes, over 1..3 gated sources and 6 providers whose per-source content appears, advances, regresses, ties, loses its time or disappears between any two steps; source failures (1/8 of calls in half of the runs), refreshes and miss-fetches cancelled while any source call is open, clock jumps of TTL-1ns/TTL/TTL+1ns/3xTTL and the refresh interval, automatic refresh in a third of the runs. Every read is compared with an executable reference model advanced at the step in which the cache publishes. Non-trivial when a fault fired or two actions were simultaneously enabled; distinct = distinct (schedule hash, fault set, canonical log hash)",
-		Real:     []string{"pcache.ProviderCache (Refresh, fetchMissing, Get, List, timers)"},
-		Stubs:    []string{"provider sources (in-process, gated at every Fetch/FetchAll)", "wall clock (testing/synctest)"},
+		Quick:    []phase{{Scen: "C06", Seeds: 12000, Batch: 500}, {Scen: "C06H", Seeds: 6000, Batch: 250}},
+		Thorough: []phase{{Scen: "C06", Seeds: 1500000, Batch: 5000}, {Scen: "C06H", Seeds: 500000, Batch: 2500}},
+		Rule:     "C06H: the same histories with the library's HTTP source (pcache.NewHTTPSource, an http.Client with a 20 s limit) between the cache and the gated sources, whose endpoints sit behind the simulated network; a failing source call is an endpoint fault (500, 503, 404, reset before / in the body, cut body, empty body, stall until the client's time limit); what the HTTP source returns is compared with what the endpoint wrote. C06: seeded histories of 5..40 operations (Refresh, Get hit/miss/negative, List) by one caller, in a third of the runs with a second caller issuing overlapping refreshes, over 1..3 gated sources and 6 providers whose per-source content appears, advances, regresses, ties, loses its time or disappears between any two steps; source failures (1/8 of calls in half of the runs), refreshes and miss-fetches cancelled while any source call is open, clock jumps of TTL-1ns/TTL/TTL+1ns/3xTTL and the refresh interval, automatic refresh in a third of the runs. Every read is compared with an executable reference model advanced at the step in which the cache publishes. Non-trivial when a fault fired or two actions were simultaneously enabled; distinct = distinct (schedule hash, fault set, canonical log hash)",
+		Real:     []string{"pcache.ProviderCache (Refresh, fetchMissing, Get, List, timers)", "pcache HTTP source (C06H: NewHTTPSource, Fetch, FetchAll, status and JSON handling)", "net/http client and transport (C06H)", "apierror"},
+		Stubs:    []string{"provider sources (in-process, gated at every Fetch/FetchAll; in C06H they are the content and handler of the HTTP endpoints)", "TCP (net.Pipe) and HTTP server loop (C06H)", "wall clock (testing/synctest)"},
 		Assume:   append([]string{"model relaxations, each where the statement leaves the point open: records with equal advertisement time (incl. two without time) may resolve to either; a provider dropped by a refresh may keep answering 'absent' without a query; records shown only to an update that did not complete are acceptable alternatives and such providers are not probed until a completed refresh reports them"}, commonAssume...),
 	},
 	"C07": {
@@ -97,9 +97,9 @@ var plans = map[string]plan{
 	},
 	"C12": {
 		Property: "C12", Level: "exploration",
-		Quick:    []phase{{Scen: "C12", Seeds: 8000, Batch: 250}},
-		Thorough: []phase{{Scen: "C12", Seeds: 600000, Batch: 2000}},
-		Rule:     "seeded: a dhstore endpoint populated by harness glue (second hash computed independently with crypto/sha256; value keys and metadata encrypted with the library) with 1..4 multihashes (sha2-256, sha2-512, identity) x 1..5 entries over identity-hashed (Ed25519) and SHA-256-hashed (RSA) peer IDs, context IDs of 0..64 bytes, an unknown provider; in two thirds of the runs the store is Byzantine: half of the entries get a value key or metadata truncated to any length (incl. 0), a bit flipped in nonce or ciphertext, encrypted under another passphrase/key, or metadata withheld; a third of the runs add transport faults (error statuses, resets before/mid response, caller cancellation mid-find) and a third run two finds concurrently. The real DHashClient (HTTP dhstore API, provider cache with HTTP source, preload on/off) must return exactly the untampered indexed entries in order; round trip, determinism, wrong-passphrase and value-key split facts are checked on every entry. Non-trivial when a non-empty expectation was compared or a fault fired; distinct = distinct (fault set, canonical log hash)",
+		Quick:    []phase{{Scen: "C12", Seeds: 8000, Batch: 250}, {Scen: "C12R", Seeds: 1600, Batch: 100, GMP: "4"}},
+		Thorough: []phase{{Scen: "C12", Seeds: 600000, Batch: 2000}, {Scen: "C12R", Seeds: 20000, Batch: 500, Race: true}},
+		Rule:     "C12R: parallel windows - 2..4 callers released in one scheduler step run the double-hash functions 20..200 times each on their own inputs on real threads (GOMAXPROCS 4; -race worker in the thorough tier); every result must equal the reference computed sequentially beforehand. This phase observes real parallel execution (it is not schedule-controlled; a clean tree cannot fail it). C12 seeded: a dhstore endpoint populated by harness glue (second hash computed independently with crypto/sha256; value keys and metadata encrypted with the library) with 1..4 multihashes (sha2-256, sha2-512, identity) x 1..5 entries over identity-hashed (Ed25519) and SHA-256-hashed (RSA) peer IDs, context IDs of 0..64 bytes, an unknown provider; in two thirds of the runs the store is Byzantine: half of the entries get a value key or metadata truncated to any length (incl. 0), a bit flipped in nonce or ciphertext, encrypted under another passphrase/key, or metadata withheld; a third of the runs add transport faults (error statuses, resets before/mid response, caller cancellation mid-find) and a third run two finds concurrently. The real DHashClient (HTTP dhstore API, provider cache with HTTP source, preload on/off) must return exactly the untampered indexed entries in order; round trip, determinism, wrong-passphrase and value-key split facts are checked on every entry. Non-trivial when a non-empty expectation was compared or a fault fired; distinct = distinct (fault set, canonical log hash)",
 		Real:     []string{"dhash (SecondMultihash, Encrypt/Decrypt value key and metadata, Create/SplitValueKey)", "find/client.DHashClient + dhstoreHTTP", "pcache with HTTP source", "net/http client transport"},
 		Stubs:    []string{"dhstore and providers endpoints (harness handler over maps)", "TCP (net.Pipe)", "HTTP server loop", "wall clock"},
 		Assume:   append([]string{"after any transport fault in a run missing results are tolerated (the provider cache may hold a negative entry for the TTL); wrong or duplicated results never are"}, commonAssume...),
@@ -115,9 +115,9 @@ var plans = map[string]plan{
 	},
 	"C15": {
 		Property: "C15", Level: "exploration",
-		Quick:    []phase{{Scen: "C15", Seeds: 4000, Batch: 125}},
-		Thorough: []phase{{Scen: "C15", Seeds: 300000, Batch: 500}},
-		Rule:     "seeded: the C14 world plus 1..3 concurrent Close callers released at an arbitrary step of running explicit and announce-triggered syncs, with yield points between the six steps of the shutdown sequence; afterwards a battery of calls (SyncAdChain, SyncEntries/SyncOneEntry, Announce, GetLatestSync, SetLatestSync, RemoveHandler, Close, OnSyncFinished+cancel) each of which must return in the step it is made in. Oracles: every Close returns; no hook call, store write or notification after the first Close returned; all listener channels closed once drained; no goroutine started by the subscriber left (goroutine dump); no panic. Non-trivial when two actions were simultaneously enabled; distinct = distinct (schedule hash, canonical log hash)",
+		Quick:    []phase{{Scen: "C15", Seeds: 4000, Batch: 125}, {Scen: "C15P", Seeds: 1200, Batch: 50}},
+		Thorough: []phase{{Scen: "C15", Seeds: 300000, Batch: 500}, {Scen: "C15P", Seeds: 60000, Batch: 200}},
+		Rule:     "C15P: the subscriber on a libp2p host of an in-memory mocknet with a gossipsub topic; a remote publisher sends 1..3 gossip announcements of a chain served over the simulated HTTP network; the allow-peer callback parks, so an announcement is held inside the receiver's watcher while 1..2 Close callers, the announce-triggered syncs and (a third of the runs) an explicit sync are released one at a time; every Close returns, later calls fail at once, the listener channel is closed, no subscriber or receiver goroutine is left. C15 seeded: the C14 world plus 1..3 concurrent Close callers released at an arbitrary step of running explicit and announce-triggered syncs, with yield points between the six steps of the shutdown sequence; afterwards a battery of calls (SyncAdChain, SyncEntries/SyncOneEntry, Announce, GetLatestSync, SetLatestSync, RemoveHandler, Close, OnSyncFinished+cancel) each of which must return in the step it is made in. Oracles: every Close returns; no hook call, store write or notification after the first Close returned; all listener channels closed once drained; no goroutine started by the subscriber left (goroutine dump); no panic. Non-trivial when two actions were simultaneously enabled; distinct = distinct (schedule hash, canonical log hash)",
 		Real:     []string{"dagsync.Subscriber (watch loop, per-publisher handlers, event distributor, idle-handler cleaner, Close)", "announce.Receiver (direct announcements)", "ipnisync.Sync/Syncer", "ipnisync.Publisher", "chanqueue", "go-ipld-prime traversal", "net/http client transport", "libp2p-HTTP discovery client"},
 		Stubs:    []string{"TCP/TLS (net.Pipe)", "HTTP server loop", "block stores (in-memory)", "wall clock (testing/synctest)", "gossip pubsub (absent: announcements are direct)", "libp2p stream transport (absent)"},
 		Assume:   append([]string{"three shutdown races that the library resolves with a select over two ready channels (buffered announcement vs. closed receiver; listener registration/cancellation vs. closing signal) are kept out of the schedule space: which branch the Go runtime takes would not replay. Both outcomes are legal."}, commonAssume...),
@@ -135,7 +135,7 @@ var plans = map[string]plan{
 		Property: "C19", Level: "exploration",
 		Quick:    []phase{{Scen: "C19", Seeds: 8000, Batch: 250}},
 		Thorough: []phase{{Scen: "C19", Seeds: 600000, Batch: 2000}},
-		Rule:     "seeded: a find endpoint built on the real response writer (prefer-JSON on/off, default and custom path types, http/https) over an index of 1..5 multihashes (sha2-256, sha2-512, identity) with 0..8 results each (nil / empty / binary context IDs and metadata, providers with 0..3 addresses); 4..14 operations per run: the real client's Find and FindBatch (present, absent, mixed), and raw requests over key forms (base58, hex, CIDv1 raw / dag-cbor, non-keys, base58 non-multihash), resource types (known, unknown, prefixed paths) and 13 Accept header combinations (absent, */*, json, ndjson, lists, parameters, unsupported, malformed). Delivery is chunked at random sizes; in a third of the runs responses are reset or cut mid-body or the caller cancels mid-stream (then an operation may fail but never return other data). NDJSON bodies are split at the recorder's flush boundaries. Non-trivial when a non-empty result set was compared or a fault fired; distinct = distinct (fault set, canonical log hash)",
+		Rule:     "seeded: a find endpoint built on the real response writer (prefer-JSON on/off, default and custom path types, http/https) over an index of 1..5 multihashes (sha2-256, sha2-512, identity) with 0..8 results each (nil / empty / binary context IDs and metadata, providers with 0..3 addresses); 4..14 operations per run: the real client's Find and FindBatch (present, absent, mixed), and raw requests over key forms (base58, hex, CIDv1 raw / dag-cbor, non-keys, base58 non-multihash), resource types (known, unknown, prefixed paths) and 18 Accept header combinations (absent, */*, json, ndjson, lists, parameters, unsupported, malformed, a malformed element after acceptable ones on the same or a second line). Delivery is chunked at random sizes; in a third of the runs responses are reset or cut mid-body or the caller cancels mid-stream (then an operation may fail but never return other data). NDJSON bodies are split at the recorder's flush boundaries. Non-trivial when a non-empty result set was compared or a fault fired; distinct = distinct (fault set, canonical log hash)",
 		Real:     []string{"rwriter.ResponseWriter / ProviderResponseWriter", "find/client.Client.Find, FindBatch", "find/model JSON", "apierror encode/decode", "net/http client transport"},
 		Stubs:    []string{"the find endpoint's index (a map) and handler glue", "TCP/TLS (net.Pipe)", "HTTP server loop with flush recorder", "wall clock"},
 		Assume:   append([]string{"when both JSON and NDJSON are acceptable either representation is accepted (the statement does not fix the precedence)"}, commonAssume...),
